@@ -93,6 +93,9 @@ func (m Msg) method() string {
 	case "close":
 		return "textDocument/didClose"
 	}
+	if m.URI != "" && strings.Contains(m.URI, "/") && !strings.HasPrefix(m.URI, "file:") {
+		return m.URI // "unknown" messages carry their method name here
+	}
 	return "workspace/somethingUnknown"
 }
 
@@ -334,7 +337,7 @@ func genHistory(r *rand.Rand, tier string) Case {
 			kind := core.Pick(r, []string{"hover", "definition", "symbols"})
 			c.Msgs = append(c.Msgs, Msg{Kind: kind, URI: ghostURI, Line: r.IntN(5), Char: r.IntN(10)})
 		case 6:
-			c.Msgs = append(c.Msgs, Msg{Kind: "unknown"})
+			c.Msgs = append(c.Msgs, Msg{Kind: "unknown", URI: core.Pick(r, []string{"", "workspace/didChangeConfiguration", "textDocument/didSave", "$/setTrace", "textDocument/completion", "workspace/symbol", "$/cancelRequest"})})
 		default:
 			// the text of the latest update of some document sent again, as a new change
 			for j := len(c.Msgs) - 1; j >= 0; j-- {
